@@ -161,6 +161,14 @@ def run(ctx, proof):
                 new = {"g": g2, "hist": list(ob["hist"]) + ([("neg",)] if o[0] == "neg" else []),
                        "abs": ob["abs"].clone(), "res": list(ob["res"])}
                 if o[0] == "neg":
+                    # the property on the implementation: negation swaps and negates the bounds, keeps knowledge, involution
+                    t_src, t_neg, t_back = bl.table_of(ob["g"]), bl.table_of(g2), bl.table_of(-g2)
+                    bad = [(i, a, b) for i, (a, b) in enumerate(zip(t_src, t_neg))
+                           if not (a[0] == b[0] and b[1] == -a[2] and b[2] == -a[1])]
+                    if bad or t_back != t_src:
+                        ctx.violation(f"negation does not swap-and-negate the bounds / is not an involution: {bad[:2]}",
+                                      {"n": n, "history": [list(map(str, x)) for x in ob["hist"]], "source_table": str(t_src),
+                                       "negated_table": str(t_neg), "double_negation": str(t_back)})
                     new["abs"].apply(("neg",), "ok", n)
                     new["res"].append(("ok", bl.table_of(g2)))
                 objs.append(new)
